@@ -6,7 +6,7 @@ LEVEL = "proof"
 RULE = ("(a) operation histories: random programs of 1..40 instructions over a register file of 2..4 "
         "Uint<BITS,LIMBS> values, opcodes drawn from every modelled family (add/sub/neg, shifts/rotations, "
         "bit ops, conversions from u64/u128/limb slices, byte/base/string decoders, float conversions, "
-        "constants, mul/div/rem/gcd/add_mod/mul_mod/pow_mod/mul_redc) and the two opaque ones (pow, root), boundary-biased "
+        "constants, every Uint-returning method of mul/div/special/gcd/modular/pow) and the opaque root, boundary-biased "
         "initial registers and immediates, every harness width; (b) boundary-biased pairs and triples "
         "(equal, adjacent, differing only in the top / lowest limb) for ==, !=, <, <=, >, >=, cmp, "
         "partial_cmp, min, max, clamp, Hash, is_zero; (c) limb arrays with the top limb at MASK-1, MASK, "
@@ -17,14 +17,14 @@ RULE = ("(a) operation histories: random programs of 1..40 instructions over a r
         "control; distinct = distinct case lines")
 TRUSTED = ["Coq 8.16.1 kernel + vm_compute",
            "hand-written Gallina models coq/Model/{Base,Word,Limbs,Add,Shift,Bits,Conv,Bytes,BaseConv,Str,Float,"
-           "Mul,Div*,UDiv,Gcd,GcdMatrix,Modular,Redc,Cmp,Gen,History,Ctor}.v and the generated coq/Model/CtorTable.v",
+           "Mul,Div*,UDiv,Gcd,GcdMatrix,Modular,Redc,Pow,Cmp,Gen,History,Ctor}.v and the generated coq/Model/CtorTable.v",
            "correspondence harness harness/src/bin/c04{a,b,c}.rs + vlib (python) translation of tokens",
            "source scanner and probe-crate runner in vlib/p_c04d.py (function-body extraction, call closure, "
            "attribution of rustc outcomes)",
            "rustc rule: a const mentioned in a monomorphised body is evaluated (observed by the probes, not proved)",
            "std DefaultHasher = SipHash-1-3 with keys (0,0) (observed)",
-           "for the two opaque operations of part (a) (wrapping_pow, root: C13 not in /verif yet) `run` is the "
-           "specification function, not a model of the code"]
+           "for the one opaque operation of part (a) (root: its model needs the observed float estimate) `run` "
+           "is the specification function, not a model of the code"]
 ASSUMPTIONS = ["64-bit little-endian target; usize arithmetic on BITS does not overflow",
                "Hash is observed through std's DefaultHasher::new() only",
                "nondeterministic generators (thread rng, quickcheck Gen) are observed through the bits above "
